@@ -163,6 +163,10 @@ def _obligations(e, var, out):
                 out.append(("continuous", "fabs", dep))
             elif nm == "copysign":
                 out.append(("discontinuous", "copysign", dep))
+        elif nm == "log" and len(e.parameters) == 2:
+            # log with a base is not in the table: refusing it is fine, and so is
+            # differentiating it - correctly (judged by value like everything else)
+            out.append(("optional", "log-with-base", dep))
         elif e.parameters:
             out.append(("never", "unknown-function", dep))
     elif isinstance(e, p.If):
@@ -452,7 +456,7 @@ def check(spec):
     _obligations(e, var, obligations)
     barred = [(cat, what, dep) for cat, what, dep in obligations
               if not _permitted(cat, eff)]
-    must = sorted({what for _, what, dep in barred if dep})
+    must = sorted({what for cat, what, dep in barred if dep and cat != "optional"})
     may = bool(barred)
     used = sorted({what for cat, what, dep in obligations
                    if _permitted(cat, eff) and dep})
@@ -852,6 +856,10 @@ class _G:
             return ["Power", base, ex]
         if k == "Func":
             nm = self.pick(SMOOTH)
+            if nm == "log" and self.int(0, 3) == 0:
+                base = self.pick((C(2.0), C(10.0), C(0.5),
+                                  ["Sum", [self.positive(min(depth - 1, 1)), C(1.5)]]))
+                return MATH("log", self.positive(depth - 1), base)
             arg = (self.positive(depth - 1) if nm == "log" and self.int(0, 9) < 7
                    else self.gen(depth - 1))
             if nm == "log" and arg[0] == "Const" and arg[1] == "int" \
